@@ -5,7 +5,7 @@ TIER=${1:-quick}
 git -C /repo status --short | grep -q . && echo "WARNING: /repo working tree is not clean"
 for p in $(python3 -c "import json; print(' '.join(c['property_id'] for c in json.load(open('MANIFEST.json'))['checks']))"); do
   s=$(date +%s)
-  ./vcheck $p --tier $TIER > /tmp/run_all_$p.log 2>&1
+  ./vcheck $p --tier $TIER > /tmp/run_all_${TIER}_$p.log 2>&1
   rc=$?
-  echo "$p exit=$rc wall=$(( $(date +%s) - s ))s $(grep -c '^VIOLATION' /tmp/run_all_$p.log) violation lines; $(tail -1 /tmp/run_all_$p.log | cut -c1-160)"
+  echo "$p exit=$rc wall=$(( $(date +%s) - s ))s $(grep -c '^VIOLATION' /tmp/run_all_${TIER}_$p.log) violation lines; $(tail -1 /tmp/run_all_${TIER}_$p.log | cut -c1-160)"
 done
